@@ -155,7 +155,7 @@ Section Settings.
               | None =>
                   conv_node cls rid conv_s
                     (classify ty fmt enum cst nv sv ik items ai mni mxi uq props req ap mnp mxp allo anyo oneo no ref dflt title)
-                    nm items props req ap oneo s0
+                    nm items props req ap (union_of oneo anyo) s0
               end
           end
       end.
